@@ -19,7 +19,9 @@
 // Parts: (a) every registered function x every argument tuple of its
 // per-parameter menus, plus arity variants and curried forms; (b) depth-2
 // compositions along type-compatible edges; (c) malformed NodeProto /
-// EvaluateRequestProto messages.
+// EvaluateRequestProto messages; (h) every parameter that accepts a collection
+// x heterogeneous collections (first element of one kind, a later element of
+// another; hetero.go).
 package main
 
 import (
@@ -321,6 +323,8 @@ func panicKind(msg string) string {
 		return "interface-conversion"
 	case strings.Contains(first, "divide by zero"):
 		return "divide-by-zero"
+	case strings.Contains(first, "can't compare"):
+		return "cant-compare" // b6.Less / b6.Equal: "can't compare <type> with <type>"
 	case strings.Contains(first, "unhashable"):
 		return "unhashable"
 	case strings.Contains(first, "reflect"):
@@ -351,11 +355,15 @@ type space struct {
 	offsets []int64    // cumulative case offsets of part (a)
 	nA      int64
 	extra   []func() caseT // a-empty, a-arity, a-curry, b, c (built on demand)
+	h       *hetero        // part (h), after the extras
 }
 
-func (s *space) Len() int64 { return s.nA + int64(len(s.extra)) }
+func (s *space) Len() int64 { return s.nA + int64(len(s.extra)) + s.h.n }
 
 func (s *space) caseAt(i int64) caseT {
+	if i >= s.nA+int64(len(s.extra)) {
+		return s.h.caseAt(i-s.nA-int64(len(s.extra)), s.fns)
+	}
 	if i >= s.nA {
 		return s.extra[i-s.nA]()
 	}
@@ -723,11 +731,14 @@ func build(tier string) (kit.Space, string) {
 		})
 	}
 
+	// --- (h) heterogeneous collections for every parameter that accepts a collection
+	s.h = buildHetero(s.fns, s.menus, thorough)
+
 	bound := fmt.Sprintf("%d registered functions; part (a): %d argument tuples against the small world (full product of the per-parameter menus, %s tier menus: every snippet of the parameter's categories + 2 ill-typed)%s + %d arity/curry variants; "+
-		"part (b): %d depth-2 compositions f(..g(good%s)..) over every type-compatible (f, parameter, g); part (c): %d malformed/edge NodeProto and EvaluateRequestProto messages; "+
-		"arity/curry variants, (b) and (c) against the small world%s; integer arguments <= 20 (s2 levels / tile zooms grow the output as 4^level: zoom 24 on the 100 m path is 430489 tiles); hang limit %v CPU",
+		"part (b): %d depth-2 compositions f(..g(good%s)..) over every type-compatible (f, parameter, g); part (c): %d malformed/edge NodeProto and EvaluateRequestProto messages; part (h): %s; "+
+		"arity/curry variants, (b), (c) and (h) against the small world%s (h: small world only); integer arguments <= 20 (s2 levels / tile zooms grow the output as 4^level: zoom 24 on the 100 m path is 430489 tiles); hang limit %v CPU",
 		len(s.fns), s.nA, tier, map[bool]string{true: fmt.Sprintf(" + %d tuples against the empty world (each parameter over its whole menu, the others plain)", nStar), false: ""}[thorough],
-		len(s.extra)-nStar-nB-nC, nB, map[bool]string{true: "|edge", false: ""}[thorough], nC, map[bool]string{true: " and the empty world", false: ""}[thorough], hangCPU)
+		len(s.extra)-nStar-nB-nC, nB, map[bool]string{true: "|edge", false: ""}[thorough], nC, s.h.describe(), map[bool]string{true: " and the empty world", false: ""}[thorough], hangCPU)
 	return s, bound
 }
 
@@ -737,11 +748,16 @@ func main() {
 	if err := os.MkdirAll("/tmp/c23-cwd", 0o755); err == nil {
 		os.Chdir("/tmp/c23-cwd")
 	}
+	if os.Getenv("C23_LIST") != "" {
+		listCollectionParams()
+		return
+	}
 	kit.Main(&kit.Check{
 		ID:    "C23",
 		Level: "exploration",
 		Rule: "A case is one request: (a) a call of a registered function with one argument tuple from the product of its per-parameter menus of client-sendable expression snippets (values assignable/convertible to the parameter type incl. empty collections, negative/zero counts, absent and invalid ids, lambdas of wrong arity, plus two ill-typed snippets), plus one-too-few/one-too-many arguments and curried forms; " +
-			"(b) f(..g(args)..) for every (f, parameter, g) whose result category fits the parameter; (c) malformed NodeProto/EvaluateRequestProto messages in root/argument/function/lambda-body/collection positions. " +
+			"(b) f(..g(args)..) for every (f, parameter, g) whose result category fits the parameter; (c) malformed NodeProto/EvaluateRequestProto messages in root/argument/function/lambda-body/collection positions; " +
+			"(h) for every (function, parameter) whose parameter accepts a collection (typed, untyped or interface{}): a heterogeneous collection of 2 or 3 elements in that position — the first element is (key kind, value kind) over the element kinds (int, float, string, feature id, tag, point, feature, nil, collection, pair; thorough also bool, path, area, query, callable, change), elements other than the odd one repeat those kinds with other values, and the odd element (the second of 2, the last of 3, thorough also the middle of 3) differs in the kind of its key or of its value, over every other kind — sent as a call (collection (pair k v)..) and as a collection literal; the other arguments all plain / all edge (thorough: every plain/edge combination) and every callable argument over its whole menu (native functions, lambdas, partial applications). " +
 			"Every request is marshalled and unmarshalled (only wire-expressible messages reach the server), then evaluated by api.Evaluate with full recursive consumption of the result and by the in-process gRPC service. " +
 			"Non-trivial: the request got past symbol resolution and argument conversion (a value, or an error raised by the function body). Oracle: value or error; panic/crash/hang is a violation classified <function>:<panic site>.",
 		Assumptions: []string{
